@@ -213,6 +213,9 @@ def _receiver_start(text, end):
             if j >= 0 and toks[j][0] == 'punct' and toks[j][1] in '&*!' :
                 # unary prefix belongs to the receiver only for `?`-free chains; keep it out
                 pass
+            if j >= 0 and toks[j][0] == 'ident' and toks[j][1] == 'match':
+                # `match SCRUTINEE { .. }.method()`: the whole match expression is the receiver
+                return toks[j][2]
             return toks[i + 1][2] if i + 1 < len(toks) else 0
         if t[0] == 'punct' and t[1] == '?':
             i -= 1
@@ -513,3 +516,19 @@ def r16_location_postfix(text):
 
 
 REWRITES['R16'] = r16_location_postfix
+
+def r17_into(text):
+    """R17: `X.into()` -> `From::from(X)` (the blanket impl of Into; vstd specifies From::from)."""
+    n = 0
+    while True:
+        m = re.search(r'\.\s*into\(\)', text)
+        if not m:
+            break
+        rs = _receiver_start(text, m.start())
+        recv = text[rs:m.start()].strip()
+        text = text[:rs] + 'From::from(' + recv + ')' + text[m.end():]
+        n += 1
+    return text, n
+
+
+REWRITES['R17'] = r17_into
